@@ -348,7 +348,7 @@ def main(tier, seed):
                      "elaborated three times with identical netlists and unchanged metadata"),
                samples=[dict(trial=["wbdec", [0, 8, 8, [], [[0, None]], []]], history="Q E Q E E Q"),
                         dict(trial=["mux_layout", "registers at 2..3 and 3..5, shadow_overlaps=0"], history="Q E Q E E Q")])
-    return finish(PID, tier, seed, "exploration", cov, ASSUMPTIONS, t0, results)
+    return finish(PID, tier, seed, "exploration", cov, ASSUMPTIONS, t0, results, min_explored=int(0.35 * len(results)))
 
 
 ASSUMPTIONS = [
